@@ -165,8 +165,7 @@ Proof.
 Qed.
 Lemma b_rf_on b x : frame_on x (out_st (b_rf b x)).
 Proof.
-  destruct b as [|b0 b]; [|apply b_wr_on]. cbn [b_rf].
-  destruct (b_active x); [|apply frame_on_refl]. destruct (b_wrote x); [apply frame_on_refl | apply b_wh_on].
+  destruct b as [|b0 b]; [|apply b_wr_on]. cbn [b_rf out_st]. apply frame_on_refl.
 Qed.
 Lemma step_on o x : frame_on x (out_st (step o x)).
 Proof.
@@ -691,7 +690,7 @@ Lemma script_ok ops : forall x, Lb x -> wh_first (bcomm x) ops = true ->
 Proof.
   induction ops as [|o ops IH]; intros x L W.
   - cbn. rewrite orb_false_r. split; [exact L|]. split; [reflexivity|]. intros y Q; discriminate Q.
-  - destruct o as [k v|s|b| |pv|b]; [| | | | |destruct b as [|b0 b]; [discriminate W|]];
+  - destruct o as [k v|s|b| |pv|b]; [| | | | |destruct b as [|b0 b]; [cbn [run_script step b_rf bnd]; exact (IH x L W)|]];
       cbn [run_script step b_rf wh_first touched is_write_op orb panics] in *.
     + destruct (b_sethdr_ok k v x L) as [L' C']. cbn [bnd]. rewrite <- C' in W |- *. exact (IH _ L' W).
     + apply andb_true_iff in W as [W Wr]. apply andb_true_iff in W as [W W3]. apply andb_true_iff in W as [W1 W2].
